@@ -1,4 +1,5 @@
 import SgModel.Lemmas.RespFeed
+import SgModel.Lemmas.RespLocal
 /-!
 # C22 — every server reply is exactly one well-formed RESP frame
 
@@ -73,6 +74,34 @@ theorem C22_counterexample_crlf_echo :
     specOneFrame (encodeLegacy (.error [69, 82, 82, 32, 39, 88, 13, 10, 43, 79, 75, 39])) = false
     ∧ (drain (encodeLegacy (.error [69, 82, 82, 32, 39, 88, 13, 10, 43, 79, 75, 39]))).1
       = [.cmd (.error [69, 82, 82, 32, 39, 88]), .cmd (.simple [79, 75, 39])] := by decide
+
+/-- The forwarding branch (sharding): whatever way the remote node's reply `encode v` — possibly
+followed by further bytes — is cut into reads, the proxy relays exactly `encode v` to the
+client, i.e. (by `C22_encode_one_frame`) exactly one frame. -/
+theorem C22_forward_relays_one_frame (v : RV) (hs : v.sound = true) (hd : v.depth ≤ MAX_DEPTH)
+    (extra : Bytes) (cs : List Bytes) (hcs : cs.flatten = encode v ++ extra) :
+    relay cs = some (encode v) ∧ specOneFrame (encode v) = true :=
+  ⟨relay_framed (encode v) (sanitize v) (C22_reply_is_framed v hs hd) extra cs hcs,
+   C22_model_refines_spec v hs hd⟩
+
+/-- The forwarding branch against **any** owning node: whatever bytes it sends in whatever
+reads (or none at all), what `handle_connection` writes to the client for the forwarded command
+is exactly one frame — the relayed one, or the `-ERR routing failed` error. -/
+theorem C22_forward_any_remote (cs : List Bytes) (errMsg : Bytes) (hu : validUtf8 errMsg = true) :
+    specOneFrame (forwardReply cs errMsg) = true := by
+  unfold forwardReply
+  cases h : relay cs with
+  | some b => exact relayFrom_one_frame cs [] b h
+  | none => exact C22_model_refines_spec (.error errMsg) (by simpa [RV.sound] using hu) (by simp [RV.depth])
+
+/-- The pinned proxy relayed the first `read` only: a reply arriving in two segments
+(`"$5\r\nhel"`, `"lo\r\n"`) reached the client as the torn `"$5\r\nhel"`, which is not a frame. -/
+theorem C22_counterexample_forward_truncates :
+    relayLegacy [[36, 53, 13, 10, 104, 101, 108], [108, 111, 13, 10]]
+      = some [36, 53, 13, 10, 104, 101, 108]
+    ∧ specOneFrame [36, 53, 13, 10, 104, 101, 108] = false
+    ∧ relay [[36, 53, 13, 10, 104, 101, 108], [108, 111, 13, 10]]
+      = some [36, 53, 13, 10, 104, 101, 108, 108, 111, 13, 10] := by decide
 
 /-! ### Non-vacuity -/
 
